@@ -19,7 +19,7 @@ func init() {
 	for _, k := range gen.Kinds {
 		req = append(req, "kind:"+k.String())
 	}
-	req = append(req, "dir_records", "bare_values", "held_encodings_rechecked")
+	req = append(req, "dir_records", "bare_values", "held_encodings_rechecked", "decoded_then_buffer_reused")
 	register(&mon.Spec{
 		ID:    "C01",
 		Level: "exploration",
@@ -164,6 +164,20 @@ func checkFcallC01(w *mon.W, codec p9p.Codec, fc *p9p.Fcall) {
 		w.Violate("mismatch", "C01:unmarshal-own-error:"+kind, fmt.Sprintf("Unmarshal(Marshal(m)) failed: %v for %s", err, desc()), nil)
 	} else if !refcodec.EqFcall(&back, fc) {
 		w.Violate("mismatch", "C01:roundtrip:"+kind, fmt.Sprintf("Unmarshal(Marshal(m)) = %s, want %s", refcodec.Describe(&back), refcodec.Describe(fc)), nil)
+	}
+	// the decoded message must stay equal to the original when the input buffer is reused
+	if len(ref) < 1<<16 {
+		buf := append([]byte{}, ref...)
+		var held p9p.Fcall
+		if err := codec.Unmarshal(buf, &held); err == nil {
+			for i := range buf {
+				buf[i] = 0xA5
+			}
+			w.Count("decoded_then_buffer_reused", 1)
+			if !refcodec.EqFcall(&held, fc) {
+				w.Violate("mismatch", "C01:decoded-aliases-input:"+kind, fmt.Sprintf("after the input buffer was reused the decoded message changed: now %s, was %s", refcodec.Describe(&held), refcodec.Describe(fc)), nil)
+			}
+		}
 	}
 	var foreign p9p.Fcall
 	if err := codec.Unmarshal(ref, &foreign); err != nil {
